@@ -575,13 +575,104 @@ def r11(ctx):
         ctx.missing(P, "C02.R11", "shared clauses of c01.r4", "no instance")
 
 
-RULES = [r1, r2, r3, r4, r5, r6, r7, r8, r8b, r8c, r9, r10, r11]
+def _join_alts(t):
+    t = strip(t) if isinstance(t, tuple) and t and t[0] not in ("join",) else t
+    if isinstance(t, tuple) and t and t[0] == "join":
+        out = []
+        for x in t[1]:
+            out.extend(_join_alts(x))
+        return out
+    return [t]
+
+
+def cut_behind_accepted(ctx, prop, rule):
+    """Oplog::open accepts a prefix of what the log file holds (entries of the current header
+    generation, up to the last complete batch) and ignores the rest: entries of the previous
+    generation that a crashed flush left behind, an unfinished batch, a torn tail.  The generation
+    is one bit, so ignoring is not enough — two header writes later the same bytes carry the current
+    bit again, and make_read_only writes a header without writing an entry over them first (defect
+    D24: the second interrupted make_read_only made the next open replay entries the header already
+    contained).  Clause: whenever the file is longer than the accepted entries, open returns a
+    truncate of the log to 8192 + (length of the accepted entries) — on every path from where the
+    accepted entries are stored in the outcome to the return, except where the outcome already
+    carries infos to flush or the comparison shows that nothing follows."""
+    fo = ctx.fn(OPLOG_OPEN)
+    if not need(ctx, prop, rule, OPLOG_OPEN, fo):
+        return
+    def field_assigns(name):
+        out = []
+        for b in fo.live():
+            for si, st in enumerate(b.stmts):
+                if st["k"] == "assign" and st["place"]["p"] and isinstance(st["place"]["p"][-1], dict) and st["place"]["p"][-1].get("n") == name:
+                    out.append((b.i, si, fo.origin_rvalue(st["rv"], b.i, si)))
+        return out
+    ent = [(b, si, v) for b, si, v in field_assigns("entries") if is_agg(v, "Some")]
+    ebl = [(b, si, v) for b, si, v in field_assigns("entries_byte_length") if not term_is_lit(v)]
+    if not (need(ctx, prop, rule, "Oplog::open: outcome.entries = Some(accepted entries)", ent) and need(ctx, prop, rule, "Oplog::open: entries_byte_length = end of the accepted entries", ebl)):
+        return
+    ebl_alts = [set(term_sig(a) for a in _join_alts(unwrap_ovf(v)) if not term_is_lit(a)) for _, _, v in ebl]
+    def is_ebl(t):
+        alts = set(term_sig(a) for a in _join_alts(unwrap_ovf(t)))
+        return any(e and e <= alts for e in ebl_alts)
+    def term_paths_str(a):
+        return " ".join(sorted(str(p) for p in term_paths(a))) if isinstance(a, tuple) else ""
+    # the truncate that is returned
+    cuts = []
+    for b, si, v in field_assigns("infos_to_flush"):
+        for x in subterms(v):
+            if isinstance(x, tuple) and x[0] == "call" and x[2] == SI_TRUNC and len(x[3]) == 2 and is_agg(strip(x[3][0]), "Oplog"):
+                a = unwrap_ovf(x[3][1])
+                good = isinstance(a, tuple) and a[0] == "bin" and a[1] == "Add" and ((ev(ctx, a[2]) == 8192 and is_ebl(a[3])) or (ev(ctx, a[3]) == 8192 and is_ebl(a[2])))
+                cuts.append((b, good, term_str(x[3][1])[:120]))
+    good_cuts = [b for b, g, _ in cuts if g]
+    ctx.check(prop, rule, "Oplog::open returns a truncate of the log to the end of the accepted entries", bool(good_cuts), "outcome.infos_to_flush = [new_truncate(Store::Oplog, Entries + entries_byte_length)]",
+              "Oplog::open %s: what follows the accepted entries in the file (entries of the previous header generation left by a crashed flush, an unfinished batch, a torn tail) stays in the log, and a later header write that is not preceded by an entry write at the start of the log — make_read_only — makes those entries current again: interrupted there, the next open replays entries the header already contains" % (
+                  ("truncates the log at %s" % [c for _, _, c in cuts]) if cuts else "returns no truncate of the log"),
+              key="%s|%s|Oplog::open|stale entries cut" % (prop, rule))
+    if not good_cuts:
+        return
+    # every path from `outcome.entries = Some(..)` to the return cuts, unless infos are pending already
+    # or nothing follows the accepted entries
+    banned_edges = set()
+    for bb, o, tr, fl in bool_switches(fo, lambda o: True):
+        if o[0] == "call" and o[2].split("::")[-1] == "is_empty" and o[3] and "infos_to_flush" in term_sig(o[3][0]):
+            banned_edges.add((bb, fl))
+        if o[0] == "bin" and o[1] == "Lt" and is_ebl(o[2]) and any(isinstance(y, tuple) and y[0] == "len" or (isinstance(y, tuple) and y[0] == "call" and y[2].split("::")[-1] == "len") for y in subterms(o[3])):
+            banned_edges.add((bb, fl))      # not (accepted < file): nothing follows
+        if o[0] == "bin" and o[1] == "Eq" and ((is_ebl(o[2]) and "len" in term_sig(o[3])) or (is_ebl(o[3]) and "len" in term_sig(o[2]))):
+            banned_edges.add((bb, tr))
+    seen = set()
+    st = [b for b, _, _ in ent]
+    leak = False
+    while st:
+        x = st.pop()
+        if x in seen:
+            continue
+        seen.add(x)
+        if x in good_cuts:
+            continue
+        if x in fo.returns:
+            leak = True
+        for y in fo.succ.get(x, []):
+            if (x, y) in banned_edges:
+                continue
+            st.append(y)
+    ctx.check(prop, rule, "Oplog::open cuts whenever bytes follow the accepted entries", not leak, "every path from `outcome.entries = Some(..)` to the return truncates, has infos pending, or compared the lengths",
+              "Oplog::open can return the accepted entries without truncating the log although the file is longer than they are (the truncate at %s is skipped under a further condition): stale entries stay behind the accepted ones" % [loc(fo, b) for b in good_cuts],
+              key="%s|%s|Oplog::open|cut on every path" % (prop, rule))
+
+
+def r12(ctx):
+    cut_behind_accepted(ctx, P, "C02.R12")
+
+
+RULES = [r1, r2, r3, r4, r5, r6, r7, r8, r8b, r8c, r9, r10, r11, r12]
 
 EXPLANATION = ("C02 (crash recovers to before-or-after): decides the write-ahead ordering premises on the CFG of every mutating entry point — "
                "data write before oplog entry, entry write ?-checked before any in-memory commit, commits before the periodic flush (append R1, proof apply R2), "
                "drop entry before destructive delete (clear R3), bitfield -> tree -> header order of the flush (R4), header content before truncate and the "
                "order [header write, truncate, header write] of a trace-clearing flush — every header write flips the current header bit, so the log is emptied between the two (R5), in-order one-mutation-per-info issue loop of Storage::flush_infos (R6), stale entries gated by "
-               "the header bit on open (R7) and the log tail offset restored on open, counting every accepted entry to the end of its payload (R8), and the StoreInfo constructor table agreeing with the dispatch of Storage::flush_infos (R9).")
+               "the header bit on open (R7) and the log tail offset restored on open, counting every accepted entry to the end of its payload (R8), and the StoreInfo constructor table agreeing with the dispatch of Storage::flush_infos (R9); replay is idempotent against a partially flushed bitfield (R10); append / clear placement (R11 = C01.R4); Oplog::open returns a truncate of the log to 8192 + the length of the accepted entries on every path on which the file can be longer than they are, so that ignored entries of an earlier header generation cannot become current again two header writes later (R12).")
 NOT_DECIDED = ("idempotence of replay over partially flushed bitfield/tree; correctness of the header-bit rotation table; atomicity of backend operations; "
                "which state a given crash point recovers to.")
 ASSUMPTIONS = ["each RandomAccess operation is atomic and persisted in issue order (stated by the property)", "MIR built by rustc reflects the source semantics"]
